@@ -1030,9 +1030,12 @@ def _rechunk_to_merge_in_boundary_chunks(
 
     rechunked_padded_args = []
     for padded_arg, original_arg in zip(padded_args, original_args):
-        original_arg_chunks = _maybe_unpack_vector_component(
-            original_arg
-        ).variable.chunksizes
+        original_da = _maybe_unpack_vector_component(original_arg)
+        # an in-memory argument (padded with a lazy halo, or passed next to lazy ones) counts as one chunk
+        original_arg_chunks = {
+            dim: original_da.variable.chunksizes.get(dim, (size,))
+            for dim, size in original_da.sizes.items()
+        }
         merged_boundary_chunks = _get_chunk_pattern_for_merging_boundary(
             grid,
             padded_arg,
